@@ -884,3 +884,29 @@ fn test_test_caching() {
     let rv = env.get_template("child.txt").unwrap().render(()).unwrap();
     assert_eq!(rv, "False");
 }
+
+#[test]
+#[cfg(feature = "debug")]
+fn test_syntax_error_range_is_valid_slice() {
+    let long_line = format!("{}{{{{ ? }}}}", "x".repeat(70000));
+    for source in [
+        "{{ \u{20ac} }}",
+        "\u{e4}{# abc",
+        "\u{e4}{% raw %}xx",
+        "{{ '\u{e4}",
+        "{{ 1 +\n \u{1d11e}",
+        long_line.as_str(),
+    ] {
+        let mut env = Environment::new();
+        env.set_debug(true);
+        let err = env.template_from_str(source).unwrap_err();
+        assert_eq!(err.kind(), ErrorKind::SyntaxError);
+        let range = err.range().unwrap();
+        assert!(
+            err.template_source().unwrap().get(range.clone()).is_some(),
+            "{range:?} is not a valid slice of {source:?}"
+        );
+        // rendering the debug info must not panic
+        let _ = format!("{err:#}");
+    }
+}
